@@ -306,6 +306,24 @@ def fault_cases(ctx, index):
         for cut in range(0, len(data), step):
             fault = {"kind": "archive-truncated", "at": cut, "prefix_rows": None}
             check_fault_bytes(ctx, model, store, data[:cut], [], fault, None)
+        if kind != "ods":
+            # the archive intact, but a part inside it cut at a tag boundary (worksheet, shared strings, workbook)
+            import zipfile
+
+            for part in ("xl/worksheets/sheet1.xml", "xl/sharedStrings.xml", "xl/workbook.xml"):
+                with zipfile.ZipFile(io.BytesIO(data)) as archive:
+                    if part not in archive.namelist():
+                        continue
+                    members = [(info, archive.read(info.filename)) for info in archive.infolist()]
+                xml = dict((info.filename, body) for info, body in members)[part]
+                positions = [i for i, b in enumerate(xml) if b == ord("<")][1:][:: (2 if ctx.tier == "thorough" else 9)]
+                for cut in positions:
+                    rebuilt = io.BytesIO()
+                    with zipfile.ZipFile(rebuilt, "w", zipfile.ZIP_DEFLATED) as out:
+                        for info, body in members:
+                            out.writestr(info, body[:cut] if info.filename == part else body)
+                    fault = {"kind": "xlsx-part-cut", "part": part, "at": cut, "prefix_rows": None}
+                    check_fault_bytes(ctx, model, store, rebuilt.getvalue(), [], fault, None)
         if kind == "ods":
             xml = storage.ods_content([table]).encode("utf-8")
             positions = [i for i, b in enumerate(xml) if b == ord("<")][:: (1 if ctx.tier == "thorough" else 4)]
